@@ -231,7 +231,9 @@ func (l *Lexer) shiftRawText() []byte {
 	} else { // RCDATA, RAWTEXT and SCRIPT
 		for {
 			c := l.r.Peek(0)
-			if c == '<' {
+			if l.skipTemplate() {
+				continue
+			} else if c == '<' {
 				if l.r.Peek(1) == '/' {
 					mark := l.r.Pos()
 					l.r.Move(2)
@@ -252,7 +254,9 @@ func (l *Lexer) shiftRawText() []byte {
 					inScript := false
 					for {
 						c := l.r.Peek(0)
-						if c == '-' && l.r.Peek(1) == '-' && l.r.Peek(2) == '>' {
+						if l.skipTemplate() {
+							continue
+						} else if c == '-' && l.r.Peek(1) == '-' && l.r.Peek(2) == '>' {
 							l.r.Move(3)
 							break
 						} else if c == '<' {
@@ -289,10 +293,6 @@ func (l *Lexer) shiftRawText() []byte {
 				} else {
 					l.r.Move(1)
 				}
-			} else if 0 < len(l.tmplBegin) && l.at(l.tmplBegin...) {
-				l.r.Move(len(l.tmplBegin))
-				l.moveTemplate()
-				l.hasTmpl = true
 			} else if c == 0 && l.r.Err() != nil {
 				return l.r.Shift()
 			} else {
@@ -306,7 +306,9 @@ func (l *Lexer) readMarkup() (TokenType, []byte) {
 	if l.at('-', '-') {
 		l.r.Move(2)
 		for {
-			if l.r.Peek(0) == 0 && l.r.Err() != nil {
+			if l.skipTemplate() {
+				continue
+			} else if l.r.Peek(0) == 0 && l.r.Err() != nil {
 				l.text = l.r.Lexeme()[4:]
 				return CommentToken, l.r.Shift()
 			} else if l.at('-', '-', '>') {
@@ -323,7 +325,9 @@ func (l *Lexer) readMarkup() (TokenType, []byte) {
 	} else if l.at('[', 'C', 'D', 'A', 'T', 'A', '[') {
 		l.r.Move(7)
 		for {
-			if l.r.Peek(0) == 0 && l.r.Err() != nil {
+			if l.skipTemplate() {
+				continue
+			} else if l.r.Peek(0) == 0 && l.r.Err() != nil {
 				l.text = l.r.Lexeme()[9:]
 				return TextToken, l.r.Shift()
 			} else if l.at(']', ']', '>') {
@@ -340,7 +344,9 @@ func (l *Lexer) readMarkup() (TokenType, []byte) {
 				l.r.Move(1)
 			}
 			for {
-				if c := l.r.Peek(0); c == '>' || c == 0 && l.r.Err() != nil {
+				if l.skipTemplate() {
+					continue
+				} else if c := l.r.Peek(0); c == '>' || c == 0 && l.r.Err() != nil {
 					l.text = l.r.Lexeme()[9:]
 					if c == '>' {
 						l.r.Move(1)
@@ -357,7 +363,9 @@ func (l *Lexer) readMarkup() (TokenType, []byte) {
 func (l *Lexer) shiftBogusComment() []byte {
 	for {
 		c := l.r.Peek(0)
-		if c == '>' {
+		if l.skipTemplate() {
+			continue
+		} else if c == '>' {
 			l.text = l.r.Lexeme()[2:]
 			l.r.Move(1)
 			return l.r.Shift()
@@ -470,7 +478,9 @@ func (l *Lexer) shiftAttribute() []byte {
 			}
 		} else { // attribute value unquoted state
 			for {
-				if c := l.r.Peek(0); c == ' ' || c == '>' || c == '\t' || c == '\n' || c == '\r' || c == '\f' || c == 0 && l.r.Err() != nil {
+				if l.skipTemplate() {
+					continue
+				} else if c := l.r.Peek(0); c == ' ' || c == '>' || c == '\t' || c == '\n' || c == '\r' || c == '\f' || c == 0 && l.r.Err() != nil {
 					break
 				}
 				l.r.Move(1)
@@ -498,7 +508,9 @@ func (l *Lexer) shiftAttribute() []byte {
 func (l *Lexer) shiftEndTag() []byte {
 	for {
 		c := l.r.Peek(0)
-		if c == '>' {
+		if l.skipTemplate() {
+			continue
+		} else if c == '>' {
 			l.text = l.r.Lexeme()[2:]
 			l.r.Move(1)
 			break
@@ -540,7 +552,9 @@ func (l *Lexer) shiftXML(rawTag Hash) []byte {
 	skip := 0        // 1 inside a comment, 2 inside a CDATA section, 3 inside a processing instruction
 	for {
 		c := l.r.Peek(0)
-		if skip != 0 && c != 0 {
+		if l.skipTemplate() {
+			continue
+		} else if skip != 0 && c != 0 {
 			// inside a comment, CDATA section or processing instruction, where an end tag is not an end tag
 			if skip == 1 && l.at('-', '-', '>') || skip == 2 && l.at(']', ']', '>') {
 				l.r.Move(3)
@@ -602,7 +616,9 @@ func (l *Lexer) shiftXML(rawTag Hash) []byte {
 
 	for {
 		c := l.r.Peek(0)
-		if c == '>' {
+		if l.skipTemplate() {
+			continue
+		} else if c == '>' {
 			l.r.Move(1)
 			break
 		} else if c == 0 {
@@ -614,6 +630,17 @@ func (l *Lexer) shiftXML(rawTag Hash) []byte {
 		l.r.Move(1)
 	}
 	return l.r.Shift()
+}
+
+// skipTemplate moves over a template if one begins here, so that it is never split across tokens.
+func (l *Lexer) skipTemplate() bool {
+	if 0 < len(l.tmplBegin) && l.at(l.tmplBegin...) {
+		l.r.Move(len(l.tmplBegin))
+		l.moveTemplate()
+		l.hasTmpl = true
+		return true
+	}
+	return false
 }
 
 func (l *Lexer) moveTemplate() {
